@@ -6,7 +6,7 @@ Open Scope Z_scope.
 
 Definition frame_wf (f : frame) : Prop :=
   match f with
-  | IFrame tx req s sdulen data =>
+  | IFrame tx req s sdulen data _ =>
       0 <= tx < 64 /\ 0 <= req < 64 /\
       match s with START => 0 <= sdulen < 65536 | _ => sdulen = 0 end
   | SFrame func poll final req => 0 <= func < 4 /\ 0 <= req < 64
@@ -17,11 +17,16 @@ Proof. intros H. Z.div_mod_to_equations. lia. Qed.
 
 Lemma dec_enc_frame f : frame_wf f -> dec_frame (enc_frame f) = Some f.
 Proof.
-  destruct f as [tx req s sdulen data | func poll final req]; cbn [frame_wf enc_frame].
+  destruct f as [tx req s sdulen data fin | func poll final req]; cbn [frame_wf enc_frame].
   - intros (Htx & Hreq & Hs).
-    assert (E0 : Z.even (2 * tx + 128) = true).
-    { rewrite Z.even_add, Z.even_mul. reflexivity. }
-    assert (E1 : (2 * tx + 128) / 2 mod 64 = tx) by (Z.div_mod_to_equations; lia).
+    assert (E0 : Z.even (2 * tx + 128 * b2z fin) = true).
+    { rewrite Z.even_add, !Z.even_mul. reflexivity. }
+    assert (E1 : (2 * tx + 128 * b2z fin) / 2 mod 64 = tx)
+      by (destruct fin; cbn [b2z]; Z.div_mod_to_equations; lia).
+    assert (E4 : Z.odd ((2 * tx + 128 * b2z fin) / 128) = fin).
+    { destruct fin; cbn [b2z].
+      - replace ((2 * tx + 128 * 1) / 128) with 1 by (Z.div_mod_to_equations; lia). reflexivity.
+      - replace ((2 * tx + 128 * 0) / 128) with 0 by (Z.div_mod_to_equations; lia). reflexivity. }
     assert (E2 : (req + 64 * sar_code s) mod 64 = req)
       by (destruct s; cbn [sar_code]; Z.div_mod_to_equations; lia).
     assert (E3 : sar_of_code (((req + 64 * sar_code s) / 64) mod 4) = s).
@@ -30,7 +35,7 @@ Proof.
       - replace ((req + 64 * 1) / 64 mod 4) with 1 by (Z.div_mod_to_equations; lia). reflexivity.
       - replace ((req + 64 * 2) / 64 mod 4) with 2 by (Z.div_mod_to_equations; lia). reflexivity.
       - replace ((req + 64 * 3) / 64 mod 4) with 3 by (Z.div_mod_to_equations; lia). reflexivity. }
-    cbn [app dec_frame]. rewrite E0, E1, E2, E3.
+    cbn [app dec_frame]. rewrite E0, E1, E2, E3, E4.
     destruct s; cbn [app le16]; try (subst sdulen; reflexivity).
     now rewrite le16_dec.
   - intros (Hf & Hreq).
@@ -82,7 +87,7 @@ Lemma wire_fcs_mismatch_refuted :
     | None => True
     end.
 Proof.
-  exists (IFrame 0 0 UNSEG 0 [1; 2; 3]). split; [cbn; lia|]. vm_compute. discriminate.
+  exists (IFrame 0 0 UNSEG 0 [1; 2; 3] true). split; [cbn; lia|]. vm_compute. discriminate.
 Qed.
 
 (* ---------- CRC-16 ---------- *)
